@@ -232,6 +232,8 @@ def sx_call(f, *a, **kw):
         raise Unsupported("CondTag passed to %r" % (f,))
     if a and isinstance(a[0], SymTagSet) and f in (set, frozenset, list, tuple, sorted):
         return a[0].copy()
+    if a and isinstance(a[0], SymTagSet) and f is len:
+        return a[0].sx_len()
     if a and isinstance(a[0], SymInt) and getattr(f, "__name__", "") == "get" and isinstance(getattr(f, "__self__", None), dict):
         # dict.get(symbolic int key): case split over the (concrete) keys
         d = f.__self__
